@@ -47,11 +47,10 @@ Proof. exact escape_output_chars. Qed.
 Print Assumptions C13_escape_output_alphabet.
 
 (* ---- 15.8.2 special values ---- *)
-(* every ES5 rule for pow is honoured by otto's pre-check over math.Pow's special cases,
-   except the one cell pow(1, NaN) *)
+(* every ES5 rule for pow is honoured by otto's pre-check over math.Pow's special cases
+   (all cells: the pow(1, NaN) exception went with commit d8f8960) *)
 Theorem C13_pow_special_values : forall cx cy r,
-  pow_tbl cx cy = Some r ->
-  otto_pow_tbl cx cy = Some r \/ (cx = CFin false KOne /\ cy = CNaN).
+  pow_tbl cx cy = Some r -> otto_pow_tbl cx cy = Some r.
 Proof. exact pow_table_honoured. Qed.
 Print Assumptions C13_pow_special_values.
 
@@ -60,6 +59,7 @@ Theorem C13_pow_extra_cells : forall cx cy r,
 Proof. exact pow_table_extra. Qed.
 Print Assumptions C13_pow_extra_cells.
 
+(* NaN pre-checks, math.Atan2's table and the Copysign of commit efc7ec6 give the 15.8.2.5 table *)
 Theorem C13_atan2_special_values : forall cy cx, otto_atan2_tbl cy cx = atan2_tbl cy cx.
 Proof. exact atan2_table_eq. Qed.
 Print Assumptions C13_atan2_special_values.
@@ -99,38 +99,24 @@ Theorem C13_round_characterised : forall S d, 0 < d ->
 Proof. intros S d H. split; [exact (q_round_char S d H) | intros n; exact (q_round_unique S d n H)]. Qed.
 Print Assumptions C13_round_characterised.
 
-(* otto's Floor(x + 0.5) is the ES5 result whenever the binary64 sum x + 0.5 is exact *)
-Theorem C13_round_partial : forall S e, e < 0 ->
-  Z.abs (fst (half_sum S e)) < 2 ^ 53 ->
-  round_int_model S e = q_round S (2 ^ (- e)).
-Proof. exact round_exact_sum. Qed.
-Print Assumptions C13_round_partial.
+(* otto's floor-and-compare (commit 01da0fa) is the ES5 result: for every rational, and on
+   every bit pattern (NaN, infinities, zeros and their signs included) *)
+Theorem C13_round_model_is_spec :
+  (forall S d, 0 < d -> q_round_model S d = q_round S d) /\ (forall b, round_model b = round_spec b).
+Proof. split; [exact q_round_model_eq | exact round_model_is_spec]. Qed.
+Print Assumptions C13_round_model_is_spec.
+
+(* otto's escape (with '@' left alone, commit d183de8) is B.2.1 on every string without surrogates *)
+Theorem C13_escape_model_is_spec : forall s,
+  Forall (fun c => 0 <= c < 0x10000) s -> Forall (fun c => is_surr c = false) s ->
+  escape_model s = escape_spec s.
+Proof. exact escape_model_is_spec. Qed.
+Print Assumptions C13_escape_model_is_spec.
 
 (* ---- otto's deviations, as refutations of "model = spec" with concrete witnesses ---- *)
-Theorem C13_pow_refuted : exists cx cy, otto_pow_tbl cx cy <> pow_tbl cx cy.
-Proof. exists (CFin false KOne), CNaN. vm_compute. discriminate. Qed.
-Print Assumptions C13_pow_refuted.
-
-Theorem C13_round_refuted_pred_half : exists b, valid_bits b /\ round_model b <> round_spec b.
-Proof. exists 0x3FDFFFFFFFFFFFFF. split; [vm_compute; split; [discriminate | reflexivity] | vm_compute; discriminate]. Qed.
-Print Assumptions C13_round_refuted_pred_half.
-
-Theorem C13_round_refuted_large_odd : exists b, valid_bits b /\ round_model b <> round_spec b.
-Proof. exists 0x4330000000000001. split; [vm_compute; split; [discriminate | reflexivity] | vm_compute; discriminate]. Qed.
-Print Assumptions C13_round_refuted_large_odd.
-
-Theorem C13_atan2_underflow_refuted : exists y x obs,
-  gen_atan2_model y x obs = true /\ gen_atan2 y x obs = false.
-Proof. exists 0x8000000000000001, 0xFE37E43C8800759C, PI_bits. vm_compute. split; reflexivity. Qed.
-Print Assumptions C13_atan2_underflow_refuted.
-
 Theorem C13_tonumber_skipped_refuted : exists fn l, conv_model fn l <> conv_spec fn l.
 Proof. exists 10, [one_bits; nan_bits; one_bits]. vm_compute. discriminate. Qed.
 Print Assumptions C13_tonumber_skipped_refuted.
-
-Theorem C13_escape_at_refuted : exists s, escape_model s <> escape_spec s.
-Proof. exists [64]. vm_compute. discriminate. Qed.
-Print Assumptions C13_escape_at_refuted.
 
 Theorem C13_escape_astral_refuted : exists s, well_formed s = true /\ escape_model s <> escape_spec s.
 Proof. exists [0xD83D; 0xDE00]. split; [reflexivity | vm_compute; discriminate]. Qed.
@@ -173,10 +159,20 @@ Proof.
   intros x [<- | [<- | [<- | []]]]; vm_compute; discriminate.
 Qed.
 
-(* 2.5 = 5 * 2^-1: the sum 3.0 is exact and both give 3; -2.5 gives -2 *)
-Example C13_round_partial_hyp_met :
-  Z.abs (fst (half_sum 5 (-1))) < 2 ^ 53 /\ round_int_model 5 (-1) = 3 /\ q_round (-5) 2 = -2.
+(* the former witnesses of the repaired defects now get the ES5 result from the model *)
+Example C13_round_regressions :
+  round_model 0x3FDFFFFFFFFFFFFF = 0 /\ round_model 0x4330000000000001 = 0x4330000000000001 /\
+  round_model 0xC330000000000001 = 0xC330000000000001 /\ round_model 0xBFE0000000000000 = nzero_bits /\
+  q_round_model 5 2 = 3 /\ q_round_model (-5) 2 = -2.
 Proof. vm_compute. repeat split; reflexivity. Qed.
+
+Example C13_pow_one_nan : otto_pow_tbl (CFin false KOne) CNaN = Some RNaN.
+Proof. reflexivity. Qed.
+
+Example C13_escape_model_hyp_met :
+  Forall (fun c => 0 <= c < 0x10000) [64; 233; 0x100; 47] /\ Forall (fun c => is_surr c = false) [64; 233; 0x100; 47] /\
+  escape_model [64; 233; 0x100; 47] = [64; 37; 69; 57; 37; 117; 48; 49; 48; 48; 47].
+Proof. split; [repeat constructor; vm_compute; try discriminate; reflexivity | split; [repeat constructor | reflexivity]]. Qed.
 
 Example C13_escape_hyp_met :
   unescape_spec (escape_spec [64; 233; 0x100; 0xD83D; 0xDE00; 37]) = [64; 233; 0x100; 0xD83D; 0xDE00; 37].
